@@ -610,6 +610,11 @@ func ruleNewNotifiesAll(c *Ctx, r *R) {
 			if p, isP := resolveVal(call.Call.Value).(*ssa.Parameter); isP && p.Parent() == fn {
 				isNotify = true
 			}
+			if ld, isLd := call.Call.Value.(*ssa.UnOp); isLd && ld.Op == token.MUL {
+				if fa, isFA := ld.X.(*ssa.FieldAddr); isFA && fieldName(fa.X.Type(), fa.Field) == "indexChanged" {
+					isNotify = true
+				}
+			}
 		}
 		if !isNotify || len(call.Call.Args) == 0 {
 			continue
